@@ -159,6 +159,16 @@ func runCase(c *Case) (res string) {
 		}
 		return "seq:" + refsStr(rs)
 	case "eval":
+		if strings.HasPrefix(c.Extra, "after:") {
+			// a prelude evaluated first in the same process and goroutine (its outcome — usually a deliberate error
+			// raised half-way through a function — is not judged): what it leaves behind must not show in the case
+			func() {
+				defer func() { recover() }()
+				if pe, err := xpath.Compile(unhx(c.Extra[6:])); err == nil {
+					pe.Evaluate(tree.At(c.Ctx, withNS))
+				}
+			}()
+		}
 		e, err := compileCase(c)
 		if err != nil {
 			return "cerr"
